@@ -1076,17 +1076,11 @@ func (ex *Executor) next(st *State, fr *frame, x *ssa.Next) Value {
 	md, _ := ex.mapData(st, it.X)
 	mt, _ := typeOfMap(x)
 	if md != nil && md.Base == nil {
-		// concrete
-		pos := fr.iterPos[x.Iter]
-		live := liveEntries(ex, st, md)
-		if fr.iterPos == nil {
-			fr.iterPos = map[ssa.Value]int{}
-		}
-		if pos < len(live) {
-			fr.iterPos[x.Iter] = pos + 1
-			return &TupleV{V: []Value{TTrue, live[pos].K, live[pos].V}}
-		}
-		return &TupleV{V: []Value{TFalse, ex.zero(tt.At(1).Type()), ex.zero(tt.At(2).Type())}}
+		// concrete: handled by nextAlternatives (the run loop forks on which
+		// update is the next live entry); reaching here means a caller outside
+		// the run loop, answer with arbitrary entries
+		st.Note("range over local map outside the run loop (havoc)")
+		return ex.havoc(st, tt, "next")
 	}
 	ok := ex.Fresh("more", SBool)
 	k := ex.havoc(st, tt.At(1).Type(), "rk")
@@ -1110,22 +1104,34 @@ func typeOfMap(x *ssa.Next) (*types.Map, bool) {
 	return mt, ok
 }
 
-func liveEntries(ex *Executor, st *State, md *MapData) []MapEntry {
-	var out []MapEntry
-	for _, u := range md.Upd {
-		// remove earlier entries with syntactically equal key
-		var keep []MapEntry
-		for _, o := range out {
-			if ex.valuesEqual(st, o.K, u.K) != TTrue {
-				keep = append(keep, o)
-			}
-		}
-		out = keep
-		if !u.Del {
-			out = append(out, u)
+// liveCond: update i of a locally built map is an entry of the map as it
+// stands iff it is not a delete and no later update (put or delete) has an
+// equal key. Keys may be symbolic, so this is a term.
+func liveCond(ex *Executor, st *State, md *MapData, i int) *Term {
+	if md.Upd[i].Del {
+		return TFalse
+	}
+	var cs []*Term
+	for j := i + 1; j < len(md.Upd); j++ {
+		cs = append(cs, Not(ex.valuesEqual(st, md.Upd[i].K, md.Upd[j].K)))
+	}
+	return And(cs...)
+}
+
+// mapLen: the exact length of a locally built map, Σ [live_i].
+func mapLen(ex *Executor, st *State, md *MapData) *Term {
+	n := IntLit(0)
+	for i := range md.Upd {
+		c := liveCond(ex, st, md, i)
+		switch c {
+		case TTrue:
+			n = Add(n, IntLit(1))
+		case TFalse:
+		default:
+			n = Add(n, Ite(c, IntLit(1), IntLit(0)))
 		}
 	}
-	return out
+	return n
 }
 
 func (ex *Executor) storeElem(st *State, a *symElemAddr, v Value) {
@@ -1191,4 +1197,43 @@ func iteLeaves(t *Term) []*Term {
 		return append(iteLeaves(t.Args[1]), iteLeaves(t.Args[2])...)
 	}
 	return []*Term{t}
+}
+
+// nextAlternatives: iteration over a locally built map visits the live
+// updates in insertion order (one representative order; order sensitivity is
+// not explored). Which update is live depends on key equalities that may be
+// symbolic, so the step forks: alternative k says "the next live update is k"
+// or "none is left".
+type nextAlt struct {
+	Cond *Term
+	Val  Value
+	Pos  int
+}
+
+func (ex *Executor) nextAlternatives(st *State, fr *frame, x *ssa.Next) ([]nextAlt, bool) {
+	it, _ := ex.get(st, fr, x.Iter).(*RangeV)
+	if it == nil || x.IsString {
+		return nil, false
+	}
+	md, _ := ex.mapData(st, it.X)
+	if md == nil || md.Base != nil {
+		return nil, false
+	}
+	tt := x.Type().(*types.Tuple)
+	pos := fr.iterPos[x.Iter]
+	var alts []nextAlt
+	var skipped []*Term
+	for i := pos; i < len(md.Upd); i++ {
+		c := liveCond(ex, st, md, i)
+		if c == TFalse {
+			continue
+		}
+		alts = append(alts, nextAlt{Cond: And(append(append([]*Term(nil), skipped...), c)...), Val: &TupleV{V: []Value{TTrue, md.Upd[i].K, md.Upd[i].V}}, Pos: i + 1})
+		if c == TTrue {
+			return alts, true
+		}
+		skipped = append(skipped, Not(c))
+	}
+	alts = append(alts, nextAlt{Cond: And(skipped...), Val: &TupleV{V: []Value{TFalse, ex.zero(tt.At(1).Type()), ex.zero(tt.At(2).Type())}}, Pos: len(md.Upd)})
+	return alts, true
 }
